@@ -25,6 +25,8 @@ TWO = ['ucopy', 'ucopy_n', 'umove', 'umove_n']
 ONE = ['destroy', 'destroy_n', 'udefault', 'udefault_n', 'uvalue', 'uvalue_n', 'ureloc', 'ureloc_n']
 ITS_TWO = ['ptr', 'ra', 'bidi', 'fwd', 'mv']
 ITS_ONE = ['ptr', 'ra', 'bidi', 'fwd']
+# reverse random-access source iterator: compared with the standard library only (the model has no such iterator kind)
+ITS_REV = ['rra']
 # expected live-object delta of a completed call on an element type (n = range length)
 LIVE_OK = {'construct_at_copy': 1, 'construct_at_move': 1, 'construct_at_value': 1, 'destroy_at': -1, 'relocate_at': 0,
            'ucopy': 'n', 'ucopy_n': 'n', 'umove': 'n', 'umove_n': 'n', 'destroy': '-n', 'destroy_n': '-n',
@@ -46,7 +48,7 @@ def grid(maxn):
         for alg in SINGLES:
             for k in (0, 1):
                 keys.add(f'{alg} T={cat} it=ptr n=1 k={k}')
-        for algs, its in ((TWO, ITS_TWO), (ONE, ITS_ONE)):
+        for algs, its in ((TWO, ITS_TWO), (ONE, ITS_ONE), (TWO + ['ureloc', 'ureloc_n'], ITS_REV)):
             for alg in algs:
                 for it in its:
                     for n in range(maxn + 1):
@@ -284,7 +286,11 @@ def evaluate(ctx, maxn, stds=STDS, only=None):
             mobs = model.get((STDNUM[std], key))
             notes = ledger_check(key, obs)
             kinds = []
-            if mobs is None:
+            if it in ITS_REV:
+                # no model line: the standard library on the identical set-up is the oracle (relocation needs C++17 for it)
+                if sc == 'na' and f.get('exc') == '0' and std in ('c++17', 'c++20') and alg.startswith('ureloc'):
+                    kinds.append('std-diff')
+            elif mobs is None:
                 if not merr:
                     kinds.append('model-missing')
             elif not obs_match(mobs, obs):
